@@ -656,12 +656,13 @@ func ruleFlagsBeforeFilter(c *report.Ctx) {
 		return
 	}
 	var cb ssa.Instruction
-	an.Instrs(f, func(in ssa.Instruction) {
+	outer := f
+	instrsWithLiterals(f, func(in ssa.Instruction) { // (the scan's body may live in a callback literal)
 		cc := an.CallOf(in)
 		if cc == nil {
 			return
 		}
-		if par, ok := cc.Value.(*ssa.Parameter); ok && par.Parent() == f {
+		if par, ok := an.ResolveCell(cc.Value).(*ssa.Parameter); ok && par.Parent() == outer {
 			cb = in
 		}
 	})
@@ -669,6 +670,7 @@ func ruleFlagsBeforeFilter(c *report.Ctx) {
 		c.Fail(sk(f)+":filter-call", "anchor lost: ScriptAddressUnspents no longer calls its filter parameter", p.Pos(f.Pos()))
 		return
 	}
+	f = cb.Parent() // the function (or literal) whose body hands the coin to the filter
 	item := an.CallOf(cb).Args[0]
 	rooted := func(addr ssa.Value) bool {
 		for i := 0; i < 6; i++ {
@@ -694,7 +696,7 @@ func ruleFlagsBeforeFilter(c *report.Ctx) {
 		nst++
 		if !instrDominates(in, cb) {
 			bad = true
-			c.Fail(sk(f)+":store-after-filter", "a field of the coin ("+p.Desc(st.Addr)+") is assigned after the caller's filter has already judged it: the coin-selection filter tests !SpentByUnmined on a value that is still false, so a coin spent by a pending transaction is offered for a new transaction", posOf(c, in))
+			c.Fail(sk(outer)+":store-after-filter", "a field of the coin ("+p.Desc(st.Addr)+") is assigned after the caller's filter has already judged it: the coin-selection filter tests !SpentByUnmined on a value that is still false, so a coin spent by a pending transaction is offered for a new transaction", posOf(c, in))
 		}
 	})
 	// the pending flag in particular must have been computed (on cred or item) before the call
@@ -711,9 +713,9 @@ func ruleFlagsBeforeFilter(c *report.Ctx) {
 		}
 	})
 	if !bad && flagOK {
-		c.OK(sk(f)+":item-complete-before-filter", itoa(nst)+" item stores, all before the callback; SpentByUnmined computed before it", posOf(c, cb))
+		c.OK(sk(outer)+":item-complete-before-filter", itoa(nst)+" item stores, all before the callback; SpentByUnmined computed before it", posOf(c, cb))
 	} else if !bad {
-		c.Fail(sk(f)+":item-complete-before-filter", "SpentByUnmined is not computed before the filter is called", posOf(c, cb))
+		c.Fail(sk(outer)+":item-complete-before-filter", "SpentByUnmined is not computed before the filter is called", posOf(c, cb))
 	}
 }
 
